@@ -48,7 +48,7 @@ var configs = map[string]propCfg{
 	},
 	"C03": {
 		Quick:    tierCfg{Shards: 8, Checks: 60, Limit: qLimit},
-		Thorough: tierCfg{Shards: 16, Checks: 1000, Limit: tLimit},
+		Thorough: tierCfg{Shards: 16, Checks: 1000, Limit: tLimit, Chunk: 200},
 		Floor:    50,
 		Rule: "histories: a pool of 2-6 generated packages, a long-lived set (67 hand-written + 0-6 drawn embedded-rule checkers; all 107 in 1 case of 20), 2-30 (package,file) visits in drawn order with repeats, " +
 			"driven exactly like the CLI (SetPackageInfo on package change, SetFileInfo, Check). Oracle: every visit equals a freshly created set on the same file. " +
